@@ -11,7 +11,7 @@ fn main() {
     let started = Instant::now();
     let args = parse_args();
     abirt::quiet_panics();
-    let w = load_world();
+    let w = std::sync::Arc::new(load_world());
     if w.batch.seed != args.seed && args.replay.is_none() {
         eprintln!("INCONCLUSIVE: gen_abi was generated for seed {} but the check runs with seed {} (run abigen --seed {} and rebuild)", w.batch.seed, args.seed, args.seed);
         std::process::exit(2);
@@ -22,6 +22,8 @@ fn main() {
     match args.prop.as_str() {
         "C09" => c09_main(&args, &w, started),
         "C10" => c10_main(&args, &w, started),
+        "C15" => c15_main(&args, &w, started),
+        "C16" => c16_main(&args, &w, started),
         other => {
             eprintln!("unknown property {:?}", other);
             std::process::exit(2);
@@ -53,13 +55,30 @@ fn replay(args: &Args, w: &World, path: &str) -> i32 {
         "C09" => {
             let Some((fi, ri)) = find(case["family"].as_str().unwrap_or(""), case["revision"].as_str().unwrap_or("")) else { return 2 };
             let ops: Vec<c09::Op> = serde_json::from_value(case["ops"].clone()).expect("ops");
-            c09::eval(&c09::Case { fam: &w.fams[fi], rev: ri, drv: &*w.drivers[fi][ri] }, &ops, &mut st, false)
+            {
+                let case = c09::Case { fam: &w.fams[fi], rev: ri, drv: &*w.drivers[fi][ri], sample: false };
+                let mut srv = c09::server(&case);
+                c09::eval(&case, &mut srv, &ops, &mut st, false)
+            }
         }
         "C10" => {
             let fname = case["family"].as_str().unwrap_or("");
             let (Some((fi, ci)), Some((_, ii))) = (find(fname, case["caller"].as_str().unwrap_or("")), find(fname, case["implementation"].as_str().unwrap_or(""))) else { return 2 };
             let spec: abigen::script::CallSpec = serde_json::from_value(case["spec"].clone()).expect("spec");
-            c10::eval(&c10::Pair { fam: &w.fams[fi], caller: ci, imp: ii, drv: &*w.drivers[fi][ci] }, &spec, &mut st, false)
+            let pair = c10::Pair { fam: &w.fams[fi], caller: ci, imp: ii, drv: &*w.drivers[fi][ci] };
+            let mut srv = c10::server(&pair);
+            c10::eval(&pair, &mut srv, &spec, &mut st, false)
+        }
+        "C15" => {
+            let fname = case["family"].as_str().unwrap_or("");
+            let Some(fi) = w.fams.iter().position(|f| f.name == fname) else { return 2 };
+            let seq: c15::Seq = serde_json::from_value(case["seq"].clone()).expect("seq");
+            c15::eval(&w.fams[fi], &w.drivers[fi], &seq, &mut st, false)
+        }
+        "C16" => {
+            let case: c16::Case = serde_json::from_value(case["c16case"].clone()).expect("case");
+            let mut r = c16::Runner { w, durations_ms: vec![] };
+            r.eval(&case, &mut st, false)
         }
         "C10-creation" => {
             let fname = case["family"].as_str().unwrap_or("");
@@ -89,8 +108,8 @@ fn nworkers() -> usize {
 }
 
 fn c09_main(args: &Args, w: &World, started: Instant) {
-    let cases = 150 * tier_mul(args);
-    let probe_cases = 8 * tier_mul(args);
+    let cases = 600 * tier_mul(args);
+    let probe_cases = 12 * tier_mul(args);
     if args.worker.is_some() {
         let mut shard = Shard::new(args);
         for (fi, fam) in w.fams.iter().enumerate() {
@@ -102,15 +121,16 @@ fn c09_main(args: &Args, w: &World, started: Instant) {
                         continue;
                     }
                     let mut st = Stats::default();
-                    let case = c09::Case { fam, rev: ri, drv: &*w.drivers[fi][ri] };
+                    let case = c09::Case { fam, rev: ri, drv: &*w.drivers[fi][ri], sample: fp.is_none() && ri == fam.revs.len() - 1 };
                     let strat = c09::program_strategy(fam, ri, fp);
                     let seed = vcore::rng::fnv64(format!("{}/C09/{}", args.seed, unit).as_bytes());
+                    let mut srv = c09::server(&case);
                     run_unit(
                         seed,
                         if fp.is_some() { probe_cases } else { cases },
                         &strat,
                         &mut st,
-                        |ops, st, counting| c09::eval(&case, ops, st, counting),
+                        |ops, st, counting| c09::eval(&case, &mut srv, ops, st, counting),
                         |ops, f| c09::replay_value(fam, ri, ops, f),
                         5,
                     );
@@ -168,7 +188,9 @@ fn c10_main(args: &Args, w: &World, started: Instant) {
                     let o = CallOpts { panic_rate: 0, force_panic: None };
                     let strat = proptest::strategy::Union::new(fam.revs[i].methods.iter().map(|m| call_spec(fam, i, j, &m.name, o)).collect::<Vec<_>>()).boxed();
                     let seed = vcore::rng::fnv64(format!("{}/C10/{}", args.seed, unit).as_bytes());
-                    run_unit(seed, cases, &strat, &mut st, |spec, st, counting| c10::eval(&pair, spec, st, counting), |spec, f| c10::replay_value(&pair, spec, f), 8);
+                    let mut srv = c10::server(&pair);
+                    run_unit(seed, cases, &strat, &mut st, |spec, st, counting| c10::eval(&pair, &mut srv, spec, st, counting), |spec, f| c10::replay_value(&pair, spec, f), 8);
+                    st.class_n("harness.child_processes_forked", srv.forks);
                     worker_emit(&st);
                 }
             }
@@ -189,6 +211,81 @@ fn c10_main(args: &Args, w: &World, started: Instant) {
             let mut c = gen_coverage(w);
             c["cases_per_ordered_pair"] = json!(cases);
             c["ordered_compatible_pairs"] = json!(w.fams.iter().map(|f| { let n = f.compat_revs().len(); n * n.saturating_sub(1) }).sum::<usize>());
+            c
+        },
+        exhaustive: false,
+    };
+    std::process::exit(finish(rep, stats, started));
+}
+
+fn c15_main(args: &Args, w: &World, started: Instant) {
+    let cases = 120 * tier_mul(args);
+    if args.worker.is_some() {
+        let mut shard = Shard::new(args);
+        for (fi, fam) in w.fams.iter().enumerate() {
+            let unit = format!("{}:ledger", fam.module);
+            if !shard.take(&unit) {
+                continue;
+            }
+            let mut st = Stats::default();
+            let strat = c15::seq_strategy(fam);
+            let seed = vcore::rng::fnv64(format!("{}/C15/{}", args.seed, unit).as_bytes());
+            run_unit(seed, cases, &strat, &mut st, |seq, st, counting| c15::eval(fam, &w.drivers[fi], seq, st, counting), |seq, f| c15::replay_value(fam, seq, f), 6);
+            worker_emit(&st);
+        }
+        shard.done();
+        return;
+    }
+    let stats = run_workers(args, nworkers(), &[]);
+    let rep = Report {
+        args,
+        level: "exploration",
+        rule: "case = run sequence (1..7 runs: repeat the current revision, advance to the next compatible revision, run a labelled breaking revision, go back to the previous revision) of savefile_abi::verify_compatiblity::<dyn Trait_r> over a fresh temporary directory that starts empty or pre-populated with the files of one revision; model = map version -> definition (method names, async flag, argument and return wire signatures at that version) recorded at first sight; oracle after every run: Ok iff the revision is backward compatible with every recorded version (new methods allowed; removed method, changed argument count, changed argument or return type not), files present == one per version seen, re-running an unchanged accepted revision is Ok; non-trivial = at least 2 runs with a repeat or a change of revision; distinct by hash(family, start, steps)",
+        assumptions: vec!["what a failing run leaves in the directory is not specified; the model adopts the files it finds after a rejected run".into()],
+        extra_coverage: {
+            let mut c = gen_coverage(w);
+            c["sequences_per_family"] = json!(cases);
+            c
+        },
+        exhaustive: false,
+    };
+    std::process::exit(finish(rep, stats, started));
+}
+
+fn c16_main(args: &Args, w: &std::sync::Arc<World>, started: Instant) {
+    let chunks = 16usize;
+    let cases = 24 * tier_mul(args);
+    if args.worker.is_some() {
+        let mut shard = Shard::new(args);
+        for k in 0..chunks {
+            let unit = format!("schedules:chunk{}", k);
+            if !shard.take(&unit) {
+                continue;
+            }
+            let mut st = Stats::default();
+            let strat = c16::case_strategy(w);
+            let seed = vcore::rng::fnv64(format!("{}/C16/{}", args.seed, unit).as_bytes());
+            let mut runner = c16::Runner { w, durations_ms: vec![] };
+            run_unit(seed, cases, &strat, &mut st, |case, st, counting| runner.eval(case, st, counting), |case, f| c16::replay_value(w, case, f), 3);
+            worker_emit(&st);
+        }
+        shard.done();
+        return;
+    }
+    // fewer worker processes than cores: every case itself runs up to 16 threads
+    let stats = run_workers(args, 4, &[]);
+    let rep = Report {
+        args,
+        level: "exploration",
+        rule: "case = (1..3 generated interfaces, N in {2,4,8,16} threads, a perturbation seed, one program per thread: blocks that create an AbiConnection for one of the interfaces (first use and cached) and issue 1..4 generated calls on it, or issue calls on a connection shared by all threads (Send + Sync interfaces); calls include methods whose closure / trait-object arguments and returned closures make the callee create further connections); each case runs in two freshly forked processes (empty ABI caches): programs one after another (sequential model) and N real threads released together by a barrier, with seeded yield/sleep/spin inside implementation methods, closures and callback objects; oracle: every result (connection creation, returned value) equals the sequential run's, all threads finish, every owned object dropped once; a watchdog expiry (100 x median case time, at least 20 s) is examined through /proc (3 samples 1 s apart) and only a confirmed deadlock is a violation; non-trivial = at least two threads start by creating a connection for the same not yet cached interface; distinct by hash(case)",
+        assumptions: vec![
+            "LOW ASSURANCE: schedules are sampled by running real threads; absence of races or deadlocks is not established".into(),
+            "the perturbation decisions come from the generated seed, but the operating system scheduler is not controlled: a concurrent failure may not reproduce on replay".into(),
+            "no ThreadSanitizer build, no lock-site yield hook in savefile-abi".into(),
+        ],
+        extra_coverage: {
+            let mut c = gen_coverage(w);
+            c["cases"] = json!(cases as usize * chunks);
             c
         },
         exhaustive: false,
